@@ -87,6 +87,9 @@ pub struct Obs<P: HProblem> {
     /// per particle: minimum objective value it was ever evaluated at
     pso_hist_min: Vec<f64>,
     swarm_ready: bool,
+    /// the SwarmResize fault changed the population behind the swarm components' back
+    resized: bool,
+    archive_updated: bool,
     _p: std::marker::PhantomData<fn() -> P>,
 }
 
@@ -145,6 +148,8 @@ impl<P: HProblem> Obs<P> {
             calls_at_pass_begin: 0,
             pso_hist_min: Vec::new(),
             swarm_ready: false,
+            resized: false,
+            archive_updated: false,
             _p: std::marker::PhantomData,
         }
     }
@@ -268,6 +273,7 @@ impl<P: HProblem> Obs<P> {
                 if kind == "ElitistArchiveUpdate" { Pre::ArchiveUpdate { archive, pop } } else { Pre::ArchiveInto { archive, pop } }
             }
             "OnWallIneffectiveCollisionUpdate" | "DecompositionUpdate" | "IntermolecularIneffectiveCollisionUpdate" | "SynthesisUpdate" => self.cro_pre(state),
+            "ParticleVelocitiesUpdate" if self.resized => Pre::None,
             "ParticleVelocitiesUpdate" => {
                 let get = || -> Option<Pre> {
                     let pops = state.try_borrow::<Populations<P>>().ok()?;
@@ -480,6 +486,10 @@ impl<P: HProblem> Obs<P> {
                 }
             }
             Pre::ArchiveUpdate { archive, pop } => {
+                if !self.archive_updated && !archive.is_empty() {
+                    d.violate("C07", "archive-not-reset-by-init", format!("({tname}) the first archive update of the run found {} individuals in the archive that this run never showed it", archive.len()));
+                }
+                self.archive_updated = true;
                 let k = self.case.params.get("num_elitists").copied().unwrap_or(0.0) as usize;
                 let after = state.try_borrow::<ElitistArchive<P>>().map(|a| pop_kvs::<P>(a.elitists())).unwrap_or_default();
                 let mut shown: Vec<KV> = archive.clone();
@@ -710,7 +720,23 @@ impl<P: HProblem> Obs<P> {
             }
             _ => {}
         }
-        if self.swarm_ready && self.case.kind == Kind::Pso && !is_container(kind) {
+        if kind == "SwarmResize" {
+            if let (Ok(pops), Ok(v)) = (state.try_borrow::<Populations<P>>(), state.try_borrow::<ParticleVelocities<Global>>()) {
+                if pops.get_current().map(|c| c.len()) != Some(v.len()) {
+                    self.resized = true;
+                    d.injected = true;
+                    bump(&mut d.counters, "fault:swarm-resized-behind-the-swarm-state", 1);
+                }
+            }
+        }
+        if self.resized && kind == "ParticleVelocitiesUpdate" {
+            // the update completed although the three collections have different lengths
+            if let (Ok(pops), Ok(v), Ok(pb)) = (state.try_borrow::<Populations<P>>(), state.try_borrow::<ParticleVelocities<Global>>(), state.try_borrow::<BestParticles<P, Global>>()) {
+                let n = pops.get_current().map(|c| c.len()).unwrap_or(0);
+                d.violate("C18", "pso-update-on-unaligned-collections", format!("a velocity update completed with {n} particles, {} velocities and {} personal bests", v.len(), pb.len()));
+            }
+        }
+        if self.swarm_ready && !self.resized && self.case.kind == Kind::Pso && !is_container(kind) {
             if let (Ok(pops), Ok(v), Ok(pb)) = (state.try_borrow::<Populations<P>>(), state.try_borrow::<ParticleVelocities<Global>>(), state.try_borrow::<BestParticles<P, Global>>()) {
                 if let Some(cur) = pops.get_current() {
                     if !(cur.len() == v.len() && v.len() == pb.len()) {
